@@ -1,6 +1,8 @@
 package main
 
 import (
+	"github.com/biogo/biogo/seq/multi"
+	"github.com/biogo/biogo/feat"
 	"github.com/biogo/biogo/seq/linear"
 	"github.com/biogo/biogo/alphabet"
 	"github.com/biogo/biogo/seq"
@@ -175,8 +177,132 @@ func c05EmptyClones(r *obs.Run) {
 	r.Note(fmt.Sprintf("emptyclones/%v/%d/%v", quality, spare, order), true)
 }
 
+// c05CloneCarries: a clone is a copy of the whole value - description, conformation, location, offset (hence Start and
+// End), encoding, threshold and the rows' annotations travel with the letters - and stays its own afterwards.
+func c05CloneCarries(r *obs.Run) {
+	rng := r.Rng
+	loc := linear.NewSeq("chr", nil, alphabet.DNA)
+	off := rng.Intn(41) - 20
+	enc := []alphabet.Encoding{alphabet.Sanger, alphabet.Illumina1_3, alphabet.Solexa, alphabet.Illumina1_8}[rng.Intn(4)]
+	thr := alphabet.Qphred(3 + rng.Intn(30))
+	ann := func(a *seq.Annotation) {
+		a.Desc, a.Conform, a.Loc, a.Offset, a.Strand = "some description", feat.Circular, loc, off, seq.Strand(1-2*rng.Intn(2))
+	}
+	kind := rng.Intn(5)
+	w := map[string]interface{}{"kind": []string{"linear.Seq", "linear.QSeq", "alignment.Seq", "alignment.QSeq", "multi.Multi"}[kind], "offset": off}
+	bad := func(what string) {
+		r.Violate("clone-not-independent", fmt.Sprintf("%v: %s", w["kind"], what), w)
+	}
+	defer func() {
+		if e := recover(); e != nil {
+			r.Violate("panic", fmt.Sprintf("%v: panic: %v", w["kind"], e), w)
+		}
+	}()
+	type whole interface {
+		CloneAnnotation() *seq.Annotation
+		Start() int
+		End() int
+	}
+	var x, c whole
+	extra := func(v whole) string { return "" }
+	switch kind {
+	case 0:
+		s := linear.NewSeq("s", alphabet.BytesToLetters([]byte("acgtacg")), alphabet.DNA)
+		ann(&s.Annotation)
+		x, c = s, s.Clone().(whole)
+	case 1:
+		s := linear.NewQSeq("s", []alphabet.QLetter{{L: 'a', Q: 9}, {L: 'c', Q: 40}, {L: 'g', Q: 1}}, alphabet.DNA, enc)
+		ann(&s.Annotation)
+		s.Threshold, s.QFilter = thr, seq.CaseFilter
+		x, c = s, s.Clone().(whole)
+		extra = func(v whole) string {
+			q := v.(*linear.QSeq)
+			return fmt.Sprint(q.Threshold, q.Encode, q.QFilter != nil)
+		}
+	case 2:
+		s, err := alignment.NewSeq("a", []string{"r0", "r1"}, [][]alphabet.Letter{{'a', 'c'}, {'g', 't'}, {'a', 'a'}}, alphabet.DNA, seq.DefaultConsensus)
+		if err != nil {
+			r.Inconclusive("harness: alignment.NewSeq: " + err.Error())
+			return
+		}
+		ann(&s.Annotation)
+		s.SubAnnotations[1].Desc, s.SubAnnotations[1].Offset = "row description", 3
+		x, c = s, s.Clone().(whole)
+		extra = func(v whole) string { return fmt.Sprintf("%+v", v.(*alignment.Seq).SubAnnotations) }
+	case 3:
+		s, err := alignment.NewQSeq("a", []string{"r0", "r1"}, [][]alphabet.QLetter{{{L: 'a', Q: 9}, {L: 'c', Q: 8}}, {{L: 'g', Q: 30}, {L: 't', Q: 2}}}, alphabet.DNA, enc, seq.DefaultQConsensus)
+		if err != nil {
+			r.Inconclusive("harness: alignment.NewQSeq: " + err.Error())
+			return
+		}
+		ann(&s.Annotation)
+		s.Threshold = thr
+		s.SubAnnotations[0].Desc, s.SubAnnotations[0].Strand = "row description", seq.Minus
+		x, c = s, s.Clone().(whole)
+		extra = func(v whole) string {
+			q := v.(*alignment.QSeq)
+			return fmt.Sprintf("%v %v %+v", q.Threshold, q.Encode, q.SubAnnotations)
+		}
+	default:
+		r0 := linear.NewSeq("r0", alphabet.BytesToLetters([]byte("acgt")), alphabet.DNA)
+		r1 := linear.NewSeq("r1", alphabet.BytesToLetters([]byte("ggt")), alphabet.DNA)
+		r1.Desc, r1.Offset = "row description", 2
+		m, err := multi.NewMulti("m", []seq.Sequence{r0, r1}, seq.DefaultConsensus)
+		if err != nil {
+			r.Inconclusive("harness: multi.NewMulti: " + err.Error())
+			return
+		}
+		m.Desc, m.Conform, m.Loc, m.Encode = "some description", feat.Circular, loc, enc
+		x, c = m, m.Clone().(whole)
+		extra = func(v whole) string {
+			mm := v.(*multi.Multi)
+			return fmt.Sprintf("%v %s/%d %s/%d", mm.Encode, mm.Seq[0].Description(), mm.Seq[0].Start(), mm.Seq[1].Description(), mm.Seq[1].Start())
+		}
+	}
+	xa, ca := *x.CloneAnnotation(), *c.CloneAnnotation()
+	if xa != ca {
+		bad(fmt.Sprintf("the clone's annotation is %+v, the original's %+v", ca, xa))
+		return
+	}
+	if x.Start() != c.Start() || x.End() != c.End() {
+		bad(fmt.Sprintf("the clone spans [%d,%d), the original [%d,%d)", c.Start(), c.End(), x.Start(), x.End()))
+		return
+	}
+	if extra(x) != extra(c) {
+		bad(fmt.Sprintf("the clone carries %s, the original %s", extra(c), extra(x)))
+		return
+	}
+	before := fmt.Sprintf("%+v %s", xa, extra(x))
+	// the clone's own fields are changed: the original keeps its
+	switch v := c.(type) {
+	case *linear.Seq:
+		v.Desc, v.Offset, v.Conform = "changed", v.Offset+5, feat.Linear
+	case *linear.QSeq:
+		v.Desc, v.Offset, v.Threshold, v.Encode = "changed", v.Offset+5, 0, alphabet.Illumina1_5
+	case *alignment.Seq:
+		v.Desc, v.Offset = "changed", v.Offset+5
+		v.SubAnnotations[1].Desc, v.SubAnnotations[0].Strand = "changed", seq.Minus
+	case *alignment.QSeq:
+		v.Desc, v.Offset, v.Threshold = "changed", v.Offset+5, 0
+		v.SubAnnotations[0].Desc = "changed"
+	case *multi.Multi:
+		v.Desc, v.Encode = "changed", alphabet.Illumina1_5
+		v.Seq[1].(*linear.Seq).Desc, v.Seq[1].(*linear.Seq).Offset = "changed", 9
+	}
+	if after := fmt.Sprintf("%+v %s", *x.CloneAnnotation(), extra(x)); after != before {
+		bad(fmt.Sprintf("changing the clone's fields changed the original: %s, was %s", after, before))
+		return
+	}
+	r.Count("clones_compared_field_by_field", 1)
+	r.Note(fmt.Sprintf("carries/%d/%d/%v/%d", kind, off, enc, thr), true)
+}
+
 func c05Case(r *obs.Run, i int) {
 	rng := r.Rng
+	if i%40 == 23 {
+		c05CloneCarries(r)
+		return
+	}
 	if i%40 == 7 {
 		c05ZeroColumns(r)
 		return
@@ -239,7 +365,11 @@ func c05Case(r *obs.Run, i int) {
 	nops := 1 + rng.Intn(6)
 	for k := 0; k < nops && !h.failed; k++ {
 		before := len(h.Ops)
-		switch rng.Intn(12) {
+		switch rng.Intn(14) {
+		case 12:
+			h.opRowReverse()
+		case 13:
+			h.opRowClone()
 		case 9:
 			h.opSwap()
 		case 10, 11:
